@@ -175,6 +175,15 @@ def enumerate_faults(doc: dict) -> list[dict]:
             if suf and suf[0].isupper() and suf[1:].islower() and suf.isalpha() and "allOf" not in s and isinstance(o_, dict) and (_is_object(o_) or "enum" in o_):
                 out.append({"piece": "inline-object-named-like-component", "pos": "schema-prop-collide", "schema": name, "other": other})
                 out.append({"piece": "inline-enum-named-like-component", "pos": "schema-prop-collide", "schema": name, "other": other})
+            # ... and a plainly bad property AFTER a sibling whose inline class gets the name of an inline class of that other
+            # component ("Order.item_status" next to "OrderItem.status"): whatever the failed schema had registered on the
+            # way must be gone when the bystander is processed
+            if suf and suf[0].isupper() and suf[1:].islower() and suf.isalpha() and "allOf" not in s and isinstance(o_, dict) and isinstance(o_.get("properties"), dict):
+                for pn, ps in o_["properties"].items():
+                    if isinstance(ps, dict) and re.fullmatch(r"[A-Za-z][A-Za-z0-9]*", pn) and (("enum" in ps and None not in ps["enum"] and "$ref" not in ps) or (ps.get("type") == "object" and "properties" in ps)):
+                        out.append({"piece": "array-no-items", "pos": "schema-prop-after-clashing-sibling", "schema": name, "other": other, "prop": pn})
+                        out.append({"piece": "array-no-items", "pos": "schema-prop-after-clashing-sibling", "schema": name, "other": other, "prop": pn, "front": True})
+                        break
     for opid, e in op_items(doc).items():
         for piece in OP_PIECES:
             if piece in ("optional-path-param",) and not _path_params(e):
@@ -185,6 +194,11 @@ def enumerate_faults(doc: dict) -> list[dict]:
         for where in OP_SCHEMA_POSITIONS:
             for piece in SCHEMA_PIECES:
                 out.append({"piece": f"{where}:{piece}", "pos": "operation", "op": opid})
+        # a NEW bad operation that is this one's namesake: declared earlier, same tag, and an operationId ("Op_abc" next to
+        # "op_abc") that gives the same module name - it is not generated, and that must not cost the valid one its module
+        if opid[:1].islower():
+            for piece in ("param-array-no-items", "param-dangling-ref", "body-only-xml", "header-date", "body-schema-array-no-items"):
+                out.append({"piece": piece, "pos": "new-operation-namesake", "op": opid})
     for path, item in (doc.get("paths") or {}).items():
         if isinstance(item, dict):
             for piece in ("param-array-no-items", "param-dangling-ref", "duplicate-params", "path-param-not-in-template", "header-date"):
@@ -300,6 +314,32 @@ def apply_fault(doc: dict, f: dict, n: int = 0) -> tuple[dict, set[str], list[st
                 # inside the cone, and whatever is omitted or changed must be named like any other affected item
                 cone = reverse_closure(doc, {name, other})
                 return d, cone, []
+            if pos == "schema-prop-after-clashing-sibling":
+                other = f.get("other") or ""
+                o_ = schemas.get(other)
+                pn = f.get("prop") or ""
+                if not isinstance(o_, dict) or not other.startswith(name) or not isinstance((o_.get("properties") or {}).get(pn), dict):
+                    raise NotApplicable(other)
+                ps = o_["properties"][pn]
+                suf = other[len(name):]
+                sib = suf[0].lower() + suf[1:] + "_" + pn
+                if any(_norm(k) == _norm(sib) for k in target.get("properties") or {}):
+                    raise NotApplicable("property name taken")
+                if "enum" in ps:
+                    target.setdefault("properties", {})[sib] = {"type": "string", "enum": ["collide_a", "collide_b"]}
+                elif ps.get("type") == "object":
+                    target.setdefault("properties", {})[sib] = {"type": "object", "properties": {"collide_inner": {"type": "boolean"}}}
+                else:
+                    raise NotApplicable("no inline class")
+                if f.get("front"):  # the clashing sibling is the FIRST property the generator meets
+                    props = target["properties"]
+                    first = {sib: props.pop(sib)}
+                    first.update(props)
+                    props.clear()
+                    props.update(first)
+                target["properties"][bad] = copy.deepcopy(SCHEMA_PIECES[piece])
+                cone = reverse_closure(doc, {name})
+                return d, cone, [f"S:{name}"]
             p = copy.deepcopy(SCHEMA_PIECES[piece])
             if pos == "schema-prop":
                 target.setdefault("properties", {})[bad] = p
@@ -311,6 +351,18 @@ def apply_fault(doc: dict, f: dict, n: int = 0) -> tuple[dict, set[str], list[st
                 target["additionalProperties"] = p
         cone = reverse_closure(doc, {name})
         return d, cone, [f"S:{name}"]
+    if pos == "new-operation-namesake":
+        ops = op_items(d)
+        e2 = f["op"]
+        e1 = e2[0].upper() + e2[1:]
+        if e2 not in ops or e1 in ops or e1 == e2:
+            raise NotApplicable(e2)
+        sake = {"get": {"operationId": e1, "responses": {"204": {"description": "ok"}}}}
+        if ops[e2]["op"].get("tags"):
+            sake["get"]["tags"] = list(ops[e2]["op"]["tags"])
+        d["paths"] = {f"/zz/namesake/{e2.lower()}{n}": sake, **d["paths"]}
+        _apply_op_piece(d, op_items(d)[e1], piece, bad)
+        return d, {f"E:{e1}"}, [f"E:{e1}"]
     if pos == "operation":
         ops = op_items(d)
         if f["op"] not in ops:
@@ -528,7 +580,15 @@ def make_doc(seed: int) -> dict:
     toggles["titles"] = False  # a titled inline class is named after its title, not after the item it belongs to (file provenance)
     g = docgen.DocGen(r, toggles=toggles, size=r.choice(["small", "small", "medium"]))
     g.ref_weight = 5.0
-    return g.document()
+    doc = g.document()
+    # component names that extend another component's name ("Order" / "OrderItem", docgen toggle prefix_names): half of the
+    # longer ones get an inline enum property, so that an inline class of the shorter one CAN derive the same class name
+    schemas = (doc.get("components") or {}).get("schemas") or {}
+    for other, o_ in schemas.items():
+        if isinstance(o_, dict) and isinstance(o_.get("properties"), dict) and "allOf" not in o_ and any(other != x and other.startswith(x) for x in schemas) and r.random() < 0.5:
+            if not any(_norm(k) == "kappa" for k in o_["properties"]):
+                o_["properties"]["kappa"] = {"type": "string", "enum": ["red", "Green", "teal"]}
+    return doc
 
 
 def run_seed(args: dict, sandbox: str) -> dict:
@@ -541,8 +601,8 @@ def run_seed(args: dict, sandbox: str) -> dict:
     else:
         k = r.choice([1, 1, 1, 2, 2, 3, 4])
         fl = [r.choice(space) for _ in range(k)]
-        collide = [f_ for f_ in space if f_["pos"].endswith("-collide")]
-        if collide and r.random() < 0.15:
+        collide = [f_ for f_ in space if f_["pos"].endswith("-collide") or f_["pos"].endswith("-clashing-sibling") or f_["pos"] == "new-operation-namesake"]
+        if collide and r.random() < 0.2:
             fl[0] = r.choice(collide)  # (a handful among hundreds of positions: drawn on purpose now and then)
         if r.random() < 0.05:
             fl = []  # fault-free configuration: D vs D
@@ -623,7 +683,7 @@ def run_spec(args: dict, sandbox: str) -> dict:
     overridden = set(((spec.get("config") or {}).get("class_overrides") or {}))
     for n, f in enumerate(spec["faults"]):
         try:
-            if f["pos"].endswith("-collide") and overridden & {f.get("schema"), f.get("other")}:
+            if (f["pos"].endswith("-collide") or f["pos"].endswith("-clashing-sibling")) and overridden & {f.get("schema"), f.get("other")}:
                 raise NotApplicable("a class_overrides entry renames one of the two: the derived names no longer clash")
             d2, c, names = apply_fault(d2, f, n)
         except NotApplicable:
@@ -664,7 +724,8 @@ def run_spec(args: dict, sandbox: str) -> dict:
             viol("bad-piece-without-diagnostic", locus0, "faulted document generated without any diagnostic")
     schema_names = sorted(((doc.get("components") or {}).get("schemas") or {}))
     schema_names_f = sorted(((d2.get("components") or {}).get("schemas") or {}))
-    op_ids = sorted(op_items(doc)) + [o for o in sorted(op_items(d2)) if o not in op_items(doc)]
+    # (document order reversed: of two operations whose ids give the same module name the LATER one owns the file)
+    op_ids = list(reversed(list(op_items(doc)))) + [o for o in sorted(op_items(d2)) if o not in op_items(doc)]
     t0, t1 = clean["tree"], faulted["tree"]
     strip = lambda k: k.split("/", 0)[-1]  # noqa: E731
     del strip
